@@ -27,7 +27,9 @@ def jwsVerify (P : Prims) (E : Env) (a : JwsAlgRow) (msg sig : Bytes) (k : Key) 
   | "RSAAlgModel" | "RSAPSSAlgModel" => do
     k.checkKeyOp E.ops "verify"
     ensure (k.kty == "RSA") .typeError           -- `.verify` of a non-RSA native key
-    P.sigVerify a k msg sig
+    -- RFC 8017 §8.1.2 / §8.2.2 step 1: a signature has exactly the octet length of the modulus
+    if sig.length != (k.bits + 7) / 8 then pure false
+    else P.sigVerify a k msg sig
   | "ECAlgModel" => do
     ensure (k.kty == "EC") .attributeError       -- `key.curve_name` on a non-curve key
     ensure (k.crv == a.curve) .valueError        -- `_check_key`
